@@ -114,6 +114,7 @@ type c12Result struct {
 	Feats   []string   `json:"feats"`
 	Millis  int64      `json:"ms"`
 	Note    string     `json:"note,omitempty"`
+	Died    bool       `json:"died,omitempty"` // the child process died while this schedule ran (not a hang)
 }
 
 const (
@@ -1265,9 +1266,23 @@ func c12RunBatch(rc *runCtx, exe string, k int, batch []c12Job, tmpRoot string) 
 			}
 			continue
 		}
+		// the child died otherwise (a panic or fatal error of the code under test on a goroutine of its own, e.g. the
+		// cleanup routine): that is an observation about the schedule that was running -- the first one without a
+		// result -- not a failure of this harness. The rest of the batch goes to a fresh child.
 		otherFailures++
-		if otherFailures > 1 {
-			return nil, spawns, fmt.Errorf("child %d failed twice: %v; %s", k, runErr, c12Tail(filepath.Join(dir, "stderr.log")))
+		if otherFailures > len(batch) {
+			return nil, spawns, fmt.Errorf("child %d: giving up after %d deaths: %v; %s", k, otherFailures, runErr, c12Tail(filepath.Join(dir, "stderr.log")))
+		}
+		died := remaining[0]
+		line, _ := json.Marshal(c12Result{Idx: died.Idx, Died: true, Note: "child process died: " + runErr.Error() + "; " + c12Tail(filepath.Join(dir, "stderr.log"))})
+		if f, err := os.OpenFile(filepath.Join(dir, "results.jsonl"), os.O_CREATE|os.O_WRONLY|os.O_APPEND, 0644); err == nil {
+			f.Write(append(line, '\n'))
+			f.Close()
+		}
+		remaining = remaining[1:]
+		if len(remaining) == 0 {
+			done, err := c12ReadResults(filepath.Join(dir, "results.jsonl"))
+			return done, spawns, err
 		}
 	}
 }
@@ -1303,6 +1318,9 @@ func c12Term(job *c12Job, r *c12Result) string {
 	obs := make([]string, len(r.Obs))
 	for i, o := range r.Obs {
 		obs[i] = fmt.Sprintf("mkObs %d %s %s %s", o.Res, cBool(o.Ran), cBool(o.Probe), cBool(o.Direx))
+	}
+	if r.Died {
+		return fmt.Sprintf("CDied %s %d %s", cBool(job.Backup), job.NShards, cList(ts))
 	}
 	return fmt.Sprintf("CSched true %s %d %s %s %s %s %d %d %s", cBool(job.Backup), job.NShards, cList(ts), cList(evs), cList(obs),
 		cBool(r.Hang), r.Entries, r.Fresh, cBool(r.Dup))
@@ -1390,6 +1408,10 @@ func runC12(rc *runCtx) error {
 		sumMs += r.Millis
 		if r.Millis > maxMs {
 			maxMs = r.Millis
+		}
+		if r.Died {
+			hist["schedules under which the process died"]++
+			rc.addSample(map[string]any{"config": job.Label, "guide": job.GuideId, "died": true, "note": r.Note})
 		}
 		if len(rc.samples) < 6 && (job.GuideId != "random" && i%7 == 0 || len(r.Feats) >= 3 || r.Hang) {
 			rc.addSample(map[string]any{"config": job.Label, "guide": job.GuideId, "events": evs, "obs": r.Obs, "hang": r.Hang,
